@@ -296,6 +296,12 @@ theorem xinv_step (x : X) (t : XTid) (h : XInv x) : XInv (xstep x t) := by
     · exact h
     · rename_i kid hk
       exact xinv_kids_update x k kid _ h hk (Adv.refl' _ _ rfl)
+  | mark k =>
+    simp only [xstep]
+    split
+    · exact h
+    · rename_i kid hk
+      exact xinv_kids_update x k kid _ h hk (Adv.refl' _ _ rfl)
   | call j =>
     simp only [xstep]
     split
